@@ -227,14 +227,17 @@ Proof.
 Qed.
 
 Lemma ip6_append_bytes hop s d rest b nh :
-  length s = 16%nat -> length d = 16%nat -> (length b <= length rest)%nat ->
+  length s = 16%nat -> length d = 16%nat -> (length b <= length rest)%nat -> N.of_nat (length b) < 65536 ->
   ip6_append (mkSlice (ip6_hdr 0 59 hop s d ++ rest) 40) b false nh =
   Ok (mkSlice (ip6_hdr (u16 (N.of_nat (length b))) nh hop s d ++ b ++ skipn (length b) rest) (40 + length b)).
 Proof.
-  intros Hs Hd Hb.
+  intros Hs Hd Hb Hsz.
+  assert (Eu : u16 (N.of_nat (length b)) = N.of_nat (length b)) by (unfold u16; apply N.mod_small; exact Hsz).
+  assert (En : N.to_nat (N.of_nat (length b)) = length b) by lia.
   do 16 (destr_list s Hs). destruct s; [|discriminate].
   do 16 (destr_list d Hd). destruct d; [|discriminate].
-  unfold ip6_append, seti, put16, copyfrom, reslice, cap. cbn [orb]. run.
+  unfold ip6_append, ip6_payloadlen, seti, put16, copyto, be16_at, reslice, cap. cbn [orb]. rewrite Eu.
+  run. rewrite ?Nat2N.id. run.
   rewrite Nat.sub_0_r, firstn_all, blit0 by lia. reflexivity.
 Qed.
 
@@ -267,9 +270,9 @@ Proof.
     repeat (apply bytes_ok_cons in Bd; destruct Bd as [? Bd]).
     repeat (apply bytes_ok_cons; split; [first [assumption | lia | apply hi8_lt | apply lo8_lt]|]). assumption. }
   split.
-  { unfold ip6_decode_lib, ip6_is_valid, ip6_version, ip6_payloadlen, ip6_nextheader, ip6_hoplimit, ip6_src, ip6_dst,
-      ip6_payload, idx, be16_at, sl, slfrom, cap.
-    run. rewrite Eu. rewrite Nat.eqb_refl. run.
+  { unfold ip6_decode_lib, ip6_is_valid, ip6_payload, ip6_version, ip6_payloadlen, ip6_nextheader, ip6_hoplimit, ip6_src,
+      ip6_dst, idx, be16_at, sl, slfrom, cap.
+    run. rewrite ?Epl. run. rewrite ?Epl. run.
     unfold view; cbn [arr len]; rewrite ?Nat.sub_0_r, ?firstn_app_exact. reflexivity. }
   unfold view. cbn [arr len Nat.add firstn]. rewrite firstn_app_exact.
   unfold ref_ip6, take, drop, w16. rewrite !w16_hi_lo by assumption. rewrite Epl.
@@ -296,7 +299,7 @@ Proof.
   eexists. eexists. split. { apply encode_ip6_bytes. lia. }
   split. { reflexivity. }
   assert (Hrest : (length b <= length (skipn 40 (arr p)))%nat) by (rewrite skipn_length; unfold cap in Hc; lia).
-  split. { apply ip6_append_bytes; auto using as16_length. }
+  split. { apply ip6_append_bytes; auto using as16_length. lia. }
   assert (Eu : u16 (N.of_nat (length b)) = N.of_nat (length b)) by (unfold u16; apply N.mod_small; lia).
   rewrite Eu.
   assert (Hl40 : length (ip6_hdr (N.of_nat (length b)) nh hop (as16 src) (as16 dst)) = 40%nat).
